@@ -48,6 +48,31 @@ LOOPSTEP = """sub:
         i1: o1
       outputMethod: %(method)s
 """
+LOOPSTEP2 = """sub:
+  run:
+    class: ExpressionTool
+    inputs:
+      i1: int
+      acc: int
+      lim: int
+    outputs:
+      o1: int
+      o2: int
+    expression: >
+      ${return {'o1': inputs.i1 + 1, 'o2': inputs.acc + inputs.i1};}
+  in:
+    i1: i1
+    acc: lim
+    lim: lim
+  out: [o1, o2]
+  requirements:
+    cwltool:Loop:
+      loopWhen: $(inputs.i1 < inputs.lim)
+      loop:
+        i1: o1
+        acc: o2
+      outputMethod: %(method)s
+"""
 SCATTER = """scatter:
   run:
     class: Workflow
@@ -132,16 +157,21 @@ class C06(Prop):
         "interleaving transition system over FIFO ports: in EVERY reachable state, for every loop condition and every "
         "behaviour of the loop output step, a termination token has reached (or is on its way to) the loop output step "
         "only if that step has already emitted an output for every instance (C06_no_early_exit; invariant proof over the "
-        "seven moves). C06_all_dict_keys / C06_no_early_exit_refuted record that the step alone does NOT have this "
+        "seven moves). (2') End to end (C06_loop_network): that wiring with the loop output step instantiated by the model "
+        "of CWLLoopOutput{All,Last}Step.run, a deterministic body and any loop condition: in every reachable state, until "
+        "the loop output step has taken a termination token it has not terminated, and once it has, every instance p ran "
+        "exactly k_p iterations (k_p = first index where the condition is false; 0 and >= 10 included) and the step has "
+        "emitted exactly one token per instance with the iteration values in order (all) / the last or null (last), then "
+        "terminated (second invariant: per-instance phase + exact multiset of tokens sent towards the loop output step). C06_all_dict_keys / C06_no_early_exit_refuted record that the step alone does NOT have this "
         "property (all(self.termination_map) tests the dict's keys): it is the wiring that provides it. (3) The "
         "combinator numbers the iterations of each instance 0,1,2,... (C06_iteration_tags). Models are tied to /repo by "
         "driving the real CWLLoopOutput*Step, LoopCombinatorStep, LoopCombinator and CWLLoopConditionalStep token by "
         "token and comparing with vm_compute, plus whole CWL loop workflows judged by an oracle from the property text.")
     LEVEL_NOTE = (
         "partial in scope, not in strength: the wiring theorem is for one loop variable, COMPLETED termination tokens, a "
-        "body and forwarders emitting one token per token with the same tag, instances of equal tag depth; the loop "
-        "output step is a parameter of the wiring theorem (list-level tags) and is not instantiated with the string-level "
-        "model of LoopOutputStep (C06_loop_output_runs_until_term gives the proviso the wiring model relies on). The "
+        "body and forwarders emitting one token per token with the same tag, instances of equal tag depth. k > 1 loop "
+        "variables (the combinator's dot-product join over k ports and per-port checklists, the terminator's join over the "
+        "outputs) are NOT modelled; they are exercised only by whole-loop runs with two back-propagated variables. The "
         "forwarders, the body and LoopTerminationCombinator are modelled from reading the code and exercised only by "
         "whole-loop runs. Trusted: Coq kernel + vm_compute; hand-written Loop/Model.v and Loop/Net.v; sorted() modelled as "
         "stable insertion sort; JS evaluation, body execution and asyncio are exercised, not modelled.")
@@ -153,7 +183,7 @@ class C06(Prop):
             "statuses (model fidelity only); retag: real LoopCombinator fed interleaved instances and iterations; cstep: real LoopCombinatorStep fed "
             "interleaved instance / looped-back / iteration-termination tokens with the termination token early or late, "
             "well-formed or with junk; when: real CWLLoopConditionalStep with a JS condition, output vs skip port; wf: CWL "
-            "workflows (loop inside scatter or plain loop, ExpressionTool body) run by the real engine. Non-trivial = a "
+            "workflows (loop inside scatter or plain loop, ExpressionTool body, one or two back-propagated loop variables) run by the real engine. Non-trivial = a "
             "count >= 10 or 0, or >= 2 instances, or a non-identity order; every wf case. Distinct = distinct canonical JSON.")
     TRUSTED = ("models: Loop/Model.v (LoopOutputStep.run, CWLLoopOutputAllStep/LastStep._process_output, "
                "LoopCombinator._product counters) and Loop/Net.v (LoopCombinatorStep.run, CWLLoopConditionalStep, "
@@ -209,7 +239,7 @@ class C06(Prop):
             starts = [max(0, lim - self._count(rng)) if rng.random() < 0.8 else lim + rng.randrange(0, 3)
                       for _ in range(rng.randrange(1, 5) if scat else 1)]
             cases.append({"f": "wf", "method": rng.choice(["all", "last"]), "scatter": scat, "starts": starts,
-                          "lim": lim, "sched": rng.randrange(0, 10**6)})
+                          "lim": lim, "sched": rng.randrange(0, 10**6), "vars": rng.choice([1, 1, 2])})
         return cases
 
     def _raw(self, rng):
@@ -445,13 +475,20 @@ class C06(Prop):
         d = tempfile.mkdtemp(prefix="sfv-c06-", dir="/var/tmp")
         cwd = os.getcwd()
         try:
-            loop = LOOPSTEP % {"method": c["method"]}
+            two = c.get("vars", 1) == 2       # two loop variables (i1 and an accumulator), output = the accumulator
+            loop = (LOOPSTEP2 if two else LOOPSTEP) % {"method": c["method"]}
+            if two:
+                loop = loop  # the accumulator starts at lim and adds i1 at every iteration
             if c["scatter"]:
                 steps = SCATTER % {"inner": indent(loop, 6)}
+                if two:
+                    steps = steps.replace("outputSource: sub/o1", "outputSource: sub/o2")
                 text = CWL % {"itype": "int[]", "src": "scatter", "steps": indent(steps, 2)}
                 job = {"i1": c["starts"], "lim": c["lim"]}
             else:
                 text = CWL % {"itype": "int", "src": "sub", "steps": indent(loop, 2)}
+                if two:
+                    text = text.replace("outputSource: sub/o1", "outputSource: sub/o2")
                 job = {"i1": c["starts"][0], "lim": c["lim"]}
             open(os.path.join(d, "wf.cwl"), "w").write(text)
             json.dump(job, open(os.path.join(d, "job.json"), "w"))
@@ -572,6 +609,11 @@ class C06(Prop):
 
             def exp(s):
                 vals = list(range(s + 1, lim + 1)) if s < lim else []
+                if c.get("vars", 1) == 2:       # o2 = acc + i1, acc starting at lim
+                    acc, vals = lim, []
+                    for i1 in range(s, lim):
+                        acc += i1
+                        vals.append(acc)
                 return vals if c["method"] == "all" else (vals[-1] if vals else None)
             want = [exp(s) for s in c["starts"]] if c["scatter"] else exp(c["starts"][0])
             if o.get("rc") != 0 or o.get("result") is None:
